@@ -77,12 +77,14 @@ struct FileImg {
     synced: usize,
     /// end offsets of the items (header / entry / torn piece) appended so far
     ends: Vec<usize>,
+    /// per item: the write whose COMPLETE entry it is (None: header, torn piece)
+    item_ids: Vec<Option<u64>>,
     /// files are never modified in place: a create() over an existing name or a delete()
     /// retires the old generation, so a snapshot (which names generations) stays valid
     gen: usize,
 }
 /// What is on disk when an incarnation starts: name -> (bytes, item end offsets).
-type Image = BTreeMap<String, (Vec<u8>, Vec<usize>)>;
+type Image = BTreeMap<String, (Vec<u8>, Vec<usize>, Vec<Option<u64>>)>;
 #[derive(Default)]
 struct World {
     files: BTreeMap<String, FileImg>,
@@ -101,6 +103,11 @@ struct World {
     running: bool,
     trunc_sent: Vec<u64>,
     vanished: Vec<String>,
+    /// the encoded entry of every planned write (whole content: key, value, stamp, replica)
+    bytes_of: BTreeMap<u64, Vec<u8>>,
+    /// writes sent and not yet seen by the store, per content, in send (= channel) order
+    unappended: BTreeMap<Vec<u8>, std::collections::VecDeque<u64>>,
+    unknown_appends: usize,
     results: BTreeMap<u64, Result<(), String>>,
 }
 impl World {
@@ -152,7 +159,15 @@ impl WalFileWriter for ScriptWriter {
         let call = if data.len() == WAL_HEADER_SIZE && &data[0..4] == b"RWAL" {
             Call::Hdr(self.seq)
         } else {
-            let id = if data.len() >= 12 { u64::from_le_bytes(data[4..12].try_into().unwrap()) } else { u64::MAX };
+            // which write is this?  Decided by the whole encoded content, never by the stamp;
+            // writes of identical content are served in the order they were sent
+            let id = match w.unappended.get_mut(data).and_then(|q| q.pop_front()) {
+                Some(id) => id,
+                None => {
+                    w.unknown_appends += 1;
+                    u64::MAX
+                }
+            };
             Call::Ent(self.seq, id, data.len() as u64)
         };
         let fault = w.fault();
@@ -175,6 +190,10 @@ impl WalFileWriter for ScriptWriter {
                 if written > 0 {
                     let e = file.data.len();
                     file.ends.push(e);
+                    file.item_ids.push(match call {
+                        Call::Ent(_, id, _) if written == data.len() => Some(id),
+                        _ => None,
+                    });
                 }
             }
             None => {
@@ -319,7 +338,11 @@ impl<'a, T> Future for Traced<'a, T> {
         if !self.started {
             self.started = true;
             let id = self.id;
-            self.world.lock().unwrap().log(Raw::Sent(id));
+            let mut w = self.world.lock().unwrap();
+            w.log(Raw::Sent(id));
+            if let Some(b) = w.bytes_of.get(&id).cloned() {
+                w.unappended.entry(b).or_default().push_back(id);
+            }
         }
         let tw = Arc::new(TraceWake { inner: cx.waker().clone(), id: self.id, world: Arc::clone(&self.world) });
         let waker = Waker::from(tw);
@@ -332,9 +355,21 @@ impl<'a, T> Future for Traced<'a, T> {
 
 #[derive(Clone, Debug)]
 struct WriteSpec {
+    /// name of the write: stamp * 1024 + serial (unique in a history)
     id: u64,
+    /// the timestamp passed to write_durable and stored in the entry: may repeat
+    ts: u64,
+    /// serial used in the key (the write's own serial, or that of the write it duplicates)
+    key: u64,
     vlen: usize,
+    replica: u64,
     sleep_us: u64,
+}
+fn spec(ts: u64, serial: u64, vlen: usize, sleep_us: u64) -> WriteSpec {
+    WriteSpec { id: ts * 1024 + serial, ts, key: serial, vlen, replica: 1 + serial % 3, sleep_us }
+}
+fn stamp_of(id: u64) -> u64 {
+    id / 1024
 }
 #[derive(Clone, Debug)]
 struct Plan {
@@ -349,12 +384,15 @@ struct Plan {
     truncs: Vec<(u64, u64)>,
 }
 
-fn make_delta(id: u64, vlen: usize) -> ReplicationDelta {
-    let replica_id = ReplicaId::new(1);
-    let clock = LamportClock { time: id, replica_id };
-    let value: String = (0..vlen).map(|j| (b'a' + ((id as usize + j) % 26) as u8) as char).collect();
+fn make_delta(s: &WriteSpec) -> ReplicationDelta {
+    let replica_id = ReplicaId::new(s.replica);
+    let clock = LamportClock { time: s.ts, replica_id };
+    let value: String = (0..s.vlen).map(|j| (b'a' + ((s.key as usize + j) % 26) as u8) as char).collect();
     let replicated = ReplicatedValue::with_value(SDS::from_str(&value), clock);
-    ReplicationDelta::new(format!("k{}", id), replicated, replica_id)
+    ReplicationDelta::new(format!("k{:03}", s.key), replicated, replica_id)
+}
+fn entry_bytes(s: &WriteSpec) -> Vec<u8> {
+    WalEntry::from_delta(&make_delta(s), s.ts).unwrap().encode()
 }
 
 #[derive(Clone, Debug, PartialEq, Eq)]
@@ -390,8 +428,13 @@ struct Run {
     snaps: Vec<Vec<(String, usize, usize, usize)>>,
 }
 
-/// The real recovery on a given disk image.
-fn recover_image(img: &[(String, &[u8])], max_file_size: usize, vlens: &BTreeMap<u64, usize>) -> (Vec<u64>, Vec<u64>) {
+/// The real recovery on a given disk image.  `truth` = for every file of the image (in
+/// sequence order) the writes whose complete entry lies inside the image, in file order
+/// (known from the appends the store saw).  Every recovered entry is matched, by its whole
+/// encoded content, with the next not yet matched write of that content in `truth`; an
+/// entry that matches nothing (not a written entry, or more copies than were written) is
+/// reported in the second component.
+fn recover_image(img: &[(String, &[u8])], truth: &[u64], max_file_size: usize, all_bytes: &BTreeMap<u64, Vec<u8>>) -> (Vec<u64>, Vec<String>) {
     let crashed = InMemoryWalStore::new();
     for (name, data) in img {
         let mut wr = crashed.create(name).unwrap();
@@ -401,23 +444,41 @@ fn recover_image(img: &[(String, &[u8])], max_file_size: usize, vlens: &BTreeMap
     }
     let rot = WalRotator::new(crashed, max_file_size).unwrap();
     let entries = rot.recover_all_entries().unwrap();
+    let mut queues: BTreeMap<&[u8], std::collections::VecDeque<u64>> = BTreeMap::new();
+    for id in truth {
+        if let Some(b) = all_bytes.get(id) {
+            queues.entry(b.as_slice()).or_default().push_back(*id);
+        }
+    }
     let mut ids = Vec::new();
     let mut bad = Vec::new();
     for e in entries {
-        let want = vlens.get(&e.timestamp).map(|vl| WalEntry::from_delta(&make_delta(e.timestamp, *vl), e.timestamp).unwrap());
-        match want {
-            Some(x) if x.data == e.data && x.checksum == e.checksum && e.to_delta().map(|d| d.key == format!("k{}", e.timestamp)).unwrap_or(false) => {}
-            _ => bad.push(e.timestamp),
+        let enc = e.encode();
+        match queues.get_mut(enc.as_slice()).and_then(|q| q.pop_front()) {
+            Some(id) => ids.push(id),
+            None => {
+                bad.push(format!("stamp {} key {:?}", e.timestamp, e.to_delta().map(|d| d.key).ok()));
+                ids.push(u64::MAX);
+            }
         }
-        ids.push(e.timestamp);
     }
     (ids, bad)
 }
 
 impl Run {
-    /// the image a crash at instant j leaves when nothing unsynced survives
-    fn crash_image(&self, j: usize) -> Vec<(String, &[u8])> {
-        self.snaps[j].iter().map(|(n, g, synced, _)| (n.clone(), &self.files[g].data[..*synced])).collect()
+    /// the image a crash at instant j leaves when `cut(synced, len)` bytes of every file
+    /// survive, and the writes whose complete entries it holds
+    fn image_at(&self, j: usize, mut cut: impl FnMut(usize, usize) -> usize) -> (Vec<(String, &[u8])>, Vec<u64>) {
+        let mut files: Vec<(u64, String, &[u8], Vec<u64>)> = Vec::new();
+        for (n, g, synced, len) in &self.snaps[j] {
+            let f = &self.files[g];
+            let c = cut(*synced, *len);
+            let ids = f.ends.iter().zip(f.item_ids.iter()).filter(|(e, _)| **e <= c).filter_map(|(_, i)| *i).collect();
+            files.push((seq_of(n), n.clone(), &f.data[..c], ids));
+        }
+        files.sort_by_key(|x| x.0);
+        let truth = files.iter().flat_map(|x| x.3.iter().copied()).collect();
+        (files.into_iter().map(|x| (x.1, x.2)).collect(), truth)
     }
 }
 
@@ -426,8 +487,11 @@ fn run_plan(plan: &Plan, init: &Image) -> Run {
     {
         let mut w = world.lock().unwrap();
         w.faults = plan.faults.clone();
-        for (n, (data, ends)) in init {
-            w.install(n, FileImg { data: data.clone(), synced: data.len(), ends: ends.clone(), gen: 0 });
+        for s in plan.tasks.iter().flatten() {
+            w.bytes_of.insert(s.id, entry_bytes(s));
+        }
+        for (n, (data, ends, item_ids)) in init {
+            w.install(n, FileImg { data: data.clone(), synced: data.len(), ends: ends.clone(), item_ids: item_ids.clone(), gen: 0 });
         }
         w.snap();
     }
@@ -481,8 +545,8 @@ fn run_plan(plan: &Plan, init: &Image) -> Run {
                     if s.sleep_us > 0 {
                         tokio::time::sleep(Duration::from_micros(s.sleep_us)).await;
                     }
-                    let delta = Arc::new(make_delta(s.id, s.vlen));
-                    let fut = Traced { fut: Box::pin(h.write_durable(delta, s.id)), id: s.id, world: Arc::clone(&world), started: false };
+                    let delta = Arc::new(make_delta(&s));
+                    let fut = Traced { fut: Box::pin(h.write_durable(delta, s.ts)), id: s.id, world: Arc::clone(&world), started: false };
                     let r = fut.await;
                     let mut w = world.lock().unwrap();
                     let n = w.ncalls;
@@ -595,7 +659,7 @@ fn run_plan(plan: &Plan, init: &Image) -> Run {
         if !w.results.contains_key(id) {
             problems.push(format!("write {} never completed", id));
         }
-        sizes.entry(*id).or_insert_with(|| entry_size(*id, plan.tasks.iter().flatten().find(|s| s.id == *id).unwrap().vlen) as u64);
+        sizes.entry(*id).or_insert_with(|| w.bytes_of[id].len() as u64);
     }
     // ---- the schedule: order in which the actor handled the writes, and where it flushed
     let mut sched = Vec::new();
@@ -652,6 +716,9 @@ fn run_plan(plan: &Plan, init: &Image) -> Run {
     }
     if !w.clobbered.is_empty() {
         problems.push(format!("create() replaced (truncated) existing WAL file(s) {:?}", w.clobbered));
+    }
+    if w.unknown_appends > 0 {
+        problems.push(format!("{} appended entries are not the encoding of any write that was sent", w.unknown_appends));
     }
     if !w.vanished.is_empty() {
         problems.push(format!("file(s) {:?} were deleted or replaced while a writer was still appending to them", w.vanished));
@@ -711,14 +778,14 @@ fn run_plan(plan: &Plan, init: &Image) -> Run {
 
 // ------------------------------------------------------------------ generators
 
-fn entry_size(id: u64, vlen: usize) -> usize {
-    WalEntry::from_delta(&make_delta(id, vlen), id).unwrap().encode().len()
+fn entry_size(s: &WriteSpec) -> usize {
+    entry_bytes(s).len()
 }
 
 /// Fixed regression scenarios (independent of the seed): the probe of DESIGN §4 row 8
 /// and the append-error variants.
 fn fixed_plan(i: u64) -> Option<Plan> {
-    let six = |sleep: u64| -> Vec<Vec<WriteSpec>> { (1..=6).map(|id| vec![WriteSpec { id, vlen: 2, sleep_us: sleep }]).collect() };
+    let six = |sleep: u64| -> Vec<Vec<WriteSpec>> { (1..=6).map(|id| vec![spec(id, id, 2, sleep)]).collect() };
     match i {
         // 6 concurrent durable writes, max_file_size 200: the batch straddles rotations
         0 => Some(Plan { max_file_size: 200, max_entries: 8, max_wait_us: 50, tasks: six(0), faults: BTreeMap::new(), shutdown_at_us: None, truncs: Vec::new() }),
@@ -743,7 +810,7 @@ fn fixed_history(i: u64) -> Option<Vec<(Plan, Option<usize>)>> {
     if let Some(p) = fixed_plan(i) {
         return Some(vec![(p, None)]);
     }
-    let one = |id: u64, sleep_us: u64| vec![WriteSpec { id, vlen: 2, sleep_us }];
+    let one = |id: u64, sleep_us: u64| vec![spec(id, id, 2, sleep_us)];
     match i {
         // rotation, crash between the creation of the new file and its first fsync, restart,
         // more writes: the new incarnation must not reuse (truncate) wal-00000001.wal
@@ -762,6 +829,21 @@ fn fixed_history(i: u64) -> Option<Vec<(Plan, Option<usize>)>> {
             Plan { max_file_size: 200, max_entries: 8, max_wait_us: 50, tasks: vec![one(5, 0), one(1, 0), one(3, 0), one(9, 2000)], faults: BTreeMap::new(), shutdown_at_us: None, truncs: vec![(5000, 5)] },
             None,
         )]),
+        // stamps 1,1,2,2,3,3 sent sequentially, one entry per file: a rotation between every pair
+        10 => Some(vec![(
+            Plan { max_file_size: 17, max_entries: 8, max_wait_us: 50, tasks: vec![(1..=6u64).map(|k| spec((k + 1) / 2, k, 2, 0)).collect()], faults: BTreeMap::new(), shutdown_at_us: None, truncs: Vec::new() },
+            None,
+        )]),
+        // the same stamps as one concurrent batch, three entries per file: the rotation falls between the two 2s
+        11 => Some(vec![(
+            Plan { max_file_size: 200, max_entries: 8, max_wait_us: 50, tasks: (1..=6u64).map(|k| vec![spec((k + 1) / 2, k, 2, 0)]).collect(), faults: BTreeMap::new(), shutdown_at_us: None, truncs: Vec::new() },
+            None,
+        )]),
+        // identical content written three times (same key, value, stamp), one entry per file
+        12 => Some(vec![(
+            Plan { max_file_size: 17, max_entries: 8, max_wait_us: 50, tasks: vec![(1..=3u64).map(|k| WriteSpec { id: 7 * 1024 + k, ts: 7, key: 1, vlen: 2, replica: 1, sleep_us: 0 }).collect()], faults: BTreeMap::new(), shutdown_at_us: None, truncs: Vec::new() },
+            None,
+        )]),
         _ => None,
     }
 }
@@ -772,43 +854,122 @@ struct Shape {
     max_wait_us: u64,
 }
 
-fn gen_tasks(rng: &mut Rng, first_id: u64) -> Vec<Vec<WriteSpec>> {
-    let ntasks = rng.gen_range(1..=6usize);
-    let mut id = first_id;
-    let concurrent = rng.gen_bool(0.6);
-    let mut tasks: Vec<Vec<WriteSpec>> = (0..ntasks)
-        .map(|_| {
-            let n = rng.gen_range(1..=4usize);
-            (0..n)
+/// History-level choices of the generator.
+#[derive(Clone, Copy)]
+struct Flavour {
+    /// all entries have the same encoded size (so `max_file_size` can put the rotation
+    /// point exactly after every k-th entry)
+    eq_vlen: Option<usize>,
+    /// some writes repeat the whole content (key, value, stamp, replica) of an earlier one
+    dup_content: bool,
+}
+
+/// Stamps of n writes, in the order in which they reach the actor when the writes are
+/// sent sequentially or as one concurrent batch.
+fn gen_stamps(rng: &mut Rng, n: usize, base: u64) -> (Vec<u64>, &'static str) {
+    let r = rng.gen_range(0..100u32);
+    if r < 30 {
+        let mut v: Vec<u64> = (0..n as u64).map(|i| base + 1 + i).collect();
+        if rng.gen_bool(0.65) {
+            use rand::seq::SliceRandom;
+            v.shuffle(rng);
+            (v, "stamps:distinct-shuffled")
+        } else {
+            (v, "stamps:distinct-increasing")
+        }
+    } else if r < 48 {
+        ((0..n as u64).map(|i| base + 1 + i / 2).collect(), "stamps:pairs(1,1,2,2,3,3)")
+    } else if r < 58 {
+        (vec![base + 1; n], "stamps:all-equal")
+    } else if r < 72 {
+        let mut v = Vec::new();
+        let mut t = base + 1;
+        while v.len() < n {
+            for _ in 0..rng.gen_range(1..=4usize) {
+                v.push(t);
+            }
+            t += 1;
+        }
+        v.truncate(n);
+        (v, "stamps:runs-of-equal")
+    } else if r < 82 {
+        ((0..n as u64).map(|i| base + n as u64 - i).collect(), "stamps:decreasing")
+    } else if r < 90 {
+        // decreasing with repeats
+        ((0..n as u64).map(|i| base + 1 + (n as u64 - 1 - i) / 2).collect(), "stamps:decreasing-pairs")
+    } else {
+        ((0..n).map(|_| base + rng.gen_range(1..=3u64)).collect(), "stamps:random-from-3-values")
+    }
+}
+
+fn gen_tasks(rng: &mut Rng, first_serial: u64, fl: Flavour, labels: &mut Vec<String>) -> Vec<Vec<WriteSpec>> {
+    let sleeps = [0u64, 0, 10, 1000, 1000, 2000, 2000, 3000, 5000];
+    let mode = rng.gen_range(0..100u32);
+    // shape: (number of tasks, writes per task, concurrent?)
+    let counts: Vec<usize> = if mode < 22 {
+        labels.push("writers:one-task-sequential".into());
+        vec![rng.gen_range(2..=10usize)]
+    } else if mode < 44 {
+        labels.push("writers:one-concurrent-batch".into());
+        vec![1; rng.gen_range(2..=10usize)]
+    } else {
+        labels.push("writers:mixed".into());
+        (0..rng.gen_range(1..=6usize)).map(|_| rng.gen_range(1..=4usize)).collect()
+    };
+    let concurrent = mode < 44 || rng.gen_bool(0.6);
+    let n: usize = counts.iter().sum();
+    // stamps may also repeat across incarnations: restart low now and then
+    let base = if rng.gen_bool(0.5) { 0 } else { first_serial };
+    let (stamps, label) = gen_stamps(rng, n, base);
+    labels.push(label.into());
+    let mut serial = first_serial;
+    let mut k = 0usize;
+    let mut tasks: Vec<Vec<WriteSpec>> = counts
+        .iter()
+        .map(|c| {
+            (0..*c)
                 .map(|_| {
-                    id += 1;
-                    let vlen = *[0usize, 1, 2, 2, 5, 17, 40].get(rng.gen_range(0..7)).unwrap();
-                    let sleep_us = if concurrent { 0 } else { *[0u64, 0, 10, 1000, 1000, 2000, 2000, 3000, 5000].get(rng.gen_range(0..9)).unwrap() };
-                    WriteSpec { id, vlen, sleep_us }
+                    serial += 1;
+                    let vlen = fl.eq_vlen.unwrap_or_else(|| *[0usize, 1, 2, 2, 5, 17, 40].get(rng.gen_range(0..7)).unwrap());
+                    let sleep_us = if concurrent { 0 } else { sleeps[rng.gen_range(0..sleeps.len())] };
+                    let s = spec(stamps[k], serial, vlen, sleep_us);
+                    k += 1;
+                    s
                 })
                 .collect()
         })
         .collect();
-    // the id is also the entry's timestamp: stamps reach the actor out of order (per-shard
-    // Lamport times of concurrent writers), so a file can hold e.g. 5, 1, 3
-    if rng.gen_bool(0.65) {
-        use rand::seq::SliceRandom;
-        let mut ids: Vec<u64> = tasks.iter().flatten().map(|s| s.id).collect();
-        ids.shuffle(rng);
-        let mut it = ids.into_iter();
+    if fl.dup_content {
+        // a later write repeats the whole content of an earlier one (same key, value, stamp, replica)
+        let flat: Vec<WriteSpec> = tasks.iter().flatten().cloned().collect();
+        let mut first = true;
         for s in tasks.iter_mut().flatten() {
-            s.id = it.next().unwrap();
+            if !first && rng.gen_bool(0.4) {
+                let src = &flat[rng.gen_range(0..flat.len())];
+                if src.id != s.id {
+                    let serial = s.id % 1024;
+                    *s = WriteSpec { id: src.ts * 1024 + serial, ts: src.ts, key: src.key, vlen: src.vlen, replica: src.replica, sleep_us: s.sleep_us };
+                }
+            }
+            first = false;
         }
     }
     tasks
 }
 
-fn gen_shape(rng: &mut Rng, tasks: &[Vec<WriteSpec>]) -> Shape {
+fn gen_shape(rng: &mut Rng, tasks: &[Vec<WriteSpec>], fl: Flavour) -> Shape {
     let all: Vec<&WriteSpec> = tasks.iter().flatten().collect();
-    let avg: usize = all.iter().map(|s| entry_size(s.id, s.vlen)).sum::<usize>() / all.len();
+    let avg: usize = all.iter().map(|s| entry_size(s)).sum::<usize>() / all.len();
     // rotation threshold: sweep from "every entry rotates" to "never rotates"
     let per_file = rng.gen_range(0..=5usize);
-    let max_file_size = if per_file == 5 { 1 << 20 } else { WAL_HEADER_SIZE + 1 + per_file * avg + rng.gen_range(0..avg) };
+    let max_file_size = if fl.eq_vlen.is_some() && rng.gen_bool(0.7) {
+        // exactly k entries per file: over the cases the rotation point falls between every adjacent pair
+        WAL_HEADER_SIZE + rng.gen_range(1..=4usize) * avg
+    } else if per_file == 5 {
+        1 << 20
+    } else {
+        WAL_HEADER_SIZE + 1 + per_file * avg + rng.gen_range(0..avg)
+    };
     let max_entries = *[1usize, 2, 3, 4, 8, 8, 64].get(rng.gen_range(0..7)).unwrap();
     let max_wait_us = *[0u64, 50, 50, 200, 2000, 4000].get(rng.gen_range(0..6)).unwrap();
     Shape { max_file_size, max_entries, max_wait_us }
@@ -955,16 +1116,29 @@ fn main() {
     for i in range {
         let mut rng = case_rng(args.seed, i);
         // ---------------- the history
-        let mut vlens: BTreeMap<u64, usize> = BTreeMap::new();
+        let mut all_bytes: BTreeMap<u64, Vec<u8>> = BTreeMap::new();
+        let mut specs: BTreeMap<u64, WriteSpec> = BTreeMap::new();
         let mut incs: Vec<Incarnation> = Vec::new();
         let mut flabels: Vec<String> = Vec::new();
         let fixed = fixed_history(i);
+        let fl = {
+            let mut r = case_rng(args.seed ^ 0xF1A7, i);
+            Flavour { eq_vlen: if r.gen_bool(0.5) { Some(*[0usize, 2, 5, 17].get(r.gen_range(0..4)).unwrap()) } else { None }, dup_content: r.gen_range(0..100u32) < 8 }
+        };
+        if fixed.is_none() {
+            if fl.eq_vlen.is_some() {
+                flabels.push("entries:all-the-same-size".into());
+            }
+            if fl.dup_content {
+                flabels.push("writes-with-identical-content(no-faults)".into());
+            }
+        }
         let (shape, n_inc) = match &fixed {
             Some(h) => (Shape { max_file_size: h[0].0.max_file_size, max_entries: h[0].0.max_entries, max_wait_us: h[0].0.max_wait_us }, h.len()),
             None => {
-                let probe = gen_tasks(&mut rng.clone(), 0);
+                let probe = gen_tasks(&mut rng.clone(), 0, fl, &mut Vec::new());
                 let r = rng.gen_range(0..100u32);
-                (gen_shape(&mut rng, &probe), if r < 70 { 1 } else if r < 94 { 2 } else { 3 })
+                (gen_shape(&mut rng, &probe, fl), if r < 70 { 1 } else if r < 94 { 2 } else { 3 })
             }
         };
         let mut image: Image = BTreeMap::new();
@@ -979,13 +1153,14 @@ fn main() {
                     h[k].0.clone()
                 }
                 None => {
-                    let tasks = gen_tasks(&mut rng, next_id);
+                    let tasks = gen_tasks(&mut rng, next_id, fl, &mut flabels);
                     let shutdown_at_us = if rng.gen_range(0..100u32) < 30 { Some(*[0u64, 0, 10, 50, 1000, 1000, 2000, 2000, 3000, 4000, 6000].get(rng.gen_range(0..11)).unwrap()) } else { None };
                     let times = [0u64, 0, 10, 1000, 1000, 2000, 2000, 3000, 4000, 6000, 8000];
                     let mut truncs = Vec::new();
                     if rng.gen_range(0..100u32) < 35 {
-                        let mut pool: Vec<u64> = all_ids.clone();
-                        pool.extend(tasks.iter().flatten().map(|s| s.id));
+                        // watermarks are stamps
+                        let mut pool: Vec<u64> = all_ids.iter().map(|x| stamp_of(*x)).collect();
+                        pool.extend(tasks.iter().flatten().map(|s| s.ts));
                         for _ in 0..rng.gen_range(1..=2usize) {
                             let base = pool[rng.gen_range(0..pool.len())];
                             let t = match rng.gen_range(0..10u32) {
@@ -998,13 +1173,18 @@ fn main() {
                         }
                     }
                     let mut plan = Plan { max_file_size: shape.max_file_size, max_entries: shape.max_entries, max_wait_us: shape.max_wait_us, tasks, faults: BTreeMap::new(), shutdown_at_us, truncs };
-                    flabels.push(plant_faults(&mut rng, &mut plan, &image, multi));
+                    if fl.dup_content {
+                        flabels.push("faults:0".into());
+                    } else {
+                        flabels.push(plant_faults(&mut rng, &mut plan, &image, multi));
+                    }
                     plan
                 }
             };
             for s in plan.tasks.iter().flatten() {
-                vlens.insert(s.id, s.vlen);
-                next_id = next_id.max(s.id);
+                all_bytes.insert(s.id, entry_bytes(s));
+                specs.insert(s.id, s.clone());
+                next_id = next_id.max(s.id % 1024);
                 all_ids.push(s.id);
             }
             let run = run_plan(&plan, &image);
@@ -1037,7 +1217,7 @@ fn main() {
                     let sure = f.ends.iter().filter(|e| **e <= *synced).count();
                     let kept = if spare { rng.gen_range(sure..=have) } else { sure };
                     let cut = if kept == 0 { 0 } else { f.ends[kept - 1] };
-                    next_image.insert(name.clone(), (f.data[..cut].to_vec(), f.ends[..kept].to_vec()));
+                    next_image.insert(name.clone(), (f.data[..cut].to_vec(), f.ends[..kept].to_vec(), f.item_ids[..kept].to_vec()));
                     next_keep.push((seq_of(name), kept));
                 }
             }
@@ -1054,7 +1234,7 @@ fn main() {
             let plan = &inc.plan;
             json!({
                 "max_file_size": plan.max_file_size, "group_commit_max_entries": plan.max_entries, "group_commit_max_wait_us": plan.max_wait_us,
-                "writer_tasks": plan.tasks.iter().map(|t| t.iter().map(|s| json!({"id": s.id, "value_len": s.vlen, "sleep_us": s.sleep_us})).collect::<Vec<_>>()).collect::<Vec<_>>(),
+                "writer_tasks": plan.tasks.iter().map(|t| t.iter().map(|s| json!({"name": s.id, "stamp": s.ts, "key": format!("k{:03}", s.key), "value_len": s.vlen, "replica": s.replica, "sleep_us": s.sleep_us})).collect::<Vec<_>>()).collect::<Vec<_>>(),
                 "shutdown_sent_at_us": plan.shutdown_at_us,
                 "truncate_requests_at_us_and_watermark": plan.truncs,
                 "faults": plan.faults.iter().map(|(k, f)| json!({"call": k, "kind": f.kind, "frac": f.frac})).collect::<Vec<_>>(),
@@ -1093,18 +1273,20 @@ fn main() {
             // started after the entry was appended (entries of earlier incarnations: always)
             let exempt = |w: u64, j: usize, prior: bool, exempt_prior: &BTreeSet<u64>| -> bool {
                 (prior && exempt_prior.contains(&w))
-                    || truncs_here.iter().any(|(c, p, t)| w <= *t && j >= c + 1 && (prior || handled_pos.get(&w).map(|hp| hp < p).unwrap_or(false)))
+                    || truncs_here.iter().any(|(c, p, t)| stamp_of(w) <= *t && j >= c + 1 && (prior || handled_pos.get(&w).map(|hp| hp < p).unwrap_or(false)))
             };
             let mut first_bad: Option<Value> = None;
             let mut first_bad_returned: Option<usize> = None;
-            let mut bad_payload: Vec<(usize, u64)> = Vec::new();
+            let mut bad_payload: Vec<(usize, String)> = Vec::new();
+            let show = |ids: &[u64]| -> Vec<Value> { ids.iter().map(|id| specs.get(id).map(|s| json!({"name": s.id, "stamp": s.ts, "key": format!("k{:03}", s.key), "value_len": s.vlen, "replica": s.replica})).unwrap_or(json!(id))).collect() };
             let mut cache: BTreeMap<Vec<(String, usize, usize, usize)>, Vec<u64>> = BTreeMap::new();
             for j in 0..=run.ncalls {
                 out.impl_checks += 2;
                 let rec_ids = match cache.get(&run.snaps[j]) {
                     Some(r) => r.clone(),
                     None => {
-                        let (ids, bad) = recover_image(&run.crash_image(j), inc.plan.max_file_size, &vlens);
+                        let (img, truth) = run.image_at(j, |synced, _| synced);
+                        let (ids, bad) = recover_image(&img, &truth, inc.plan.max_file_size, &all_bytes);
                         bad_payload.extend(bad.into_iter().map(|b| (j, b)));
                         cache.insert(run.snaps[j].clone(), ids.clone());
                         ids
@@ -1119,21 +1301,21 @@ fn main() {
                 let lost: Vec<u64> = acked.iter().copied().filter(|x| !rec.contains(x)).collect();
                 if !lost.is_empty() && first_bad.is_none() {
                     let from_earlier: Vec<u64> = lost.iter().copied().filter(|x| inc.prior_acked.contains(x)).collect();
-                    first_bad = Some(json!({"incarnation": k, "crash_after_calls": j, "acked_ok_and_not_released_by_a_truncation": acked, "recovered": rec_ids, "lost": lost,
+                    first_bad = Some(json!({"incarnation": k, "crash_after_calls": j, "acked_ok_and_not_released_by_a_truncation": acked, "recovered": rec_ids, "lost": lost, "lost_writes": show(&lost),
                         "lost_entries_acked_by_an_earlier_incarnation": from_earlier, "truncations_started_so_far(calls_before,watermark)": truncs_here.iter().filter(|(c, _, _)| j >= c + 1).map(|(c, _, t)| (*c, *t)).collect::<Vec<_>>()}));
                 }
                 if inc.prior_acked.iter().chain(run.returned_at[j].iter()).any(|x| !rec.contains(x) && acked.contains(x)) && first_bad_returned.is_none() {
                     first_bad_returned = Some(j);
                 }
                 // a crash that spares a random part (byte granularity) of the unsynced tails
-                let cuts: Vec<(String, &[u8])> = run.snaps[j].iter().map(|(n, g, synced, len)| (n.clone(), &run.files[g].data[..rng.gen_range(*synced..=*len)])).collect();
-                let (ids2, bad2) = recover_image(&cuts, inc.plan.max_file_size, &vlens);
+                let (cuts, truth2) = run.image_at(j, |synced, len| rng.gen_range(synced..=len));
+                let (ids2, bad2) = recover_image(&cuts, &truth2, inc.plan.max_file_size, &all_bytes);
                 bad_payload.extend(bad2.into_iter().map(|b| (j, b)));
                 let rec2: BTreeSet<u64> = ids2.iter().copied().collect();
                 let lost2: Vec<u64> = acked.iter().copied().filter(|x| !rec2.contains(x)).collect();
                 if !lost2.is_empty() && first_bad.is_none() {
                     let from_earlier: Vec<u64> = lost2.iter().copied().filter(|x| inc.prior_acked.contains(x)).collect();
-                    first_bad = Some(json!({"incarnation": k, "crash_after_calls": j, "unsynced_bytes_kept": cuts.iter().map(|(n, d)| (n.clone(), d.len())).collect::<Vec<_>>(), "acked_ok_and_not_released_by_a_truncation": acked, "recovered": ids2, "lost": lost2,
+                    first_bad = Some(json!({"incarnation": k, "crash_after_calls": j, "unsynced_bytes_kept": cuts.iter().map(|(n, d)| (n.clone(), d.len())).collect::<Vec<_>>(), "acked_ok_and_not_released_by_a_truncation": acked, "recovered": ids2, "lost": lost2, "lost_writes": show(&lost2),
                         "lost_entries_acked_by_an_earlier_incarnation": from_earlier}));
                 }
                 if k + 1 == incs.len() {
@@ -1161,7 +1343,7 @@ fn main() {
             let newly: Vec<u64> = inc.prior_acked.iter().copied().filter(|w| exempt(*w, at, true, &exempt_prior)).chain(run.acked_at[at].iter().copied().filter(|w| exempt(*w, at, false, &exempt_prior))).collect();
             exempt_prior.extend(newly);
             if !bad_payload.is_empty() {
-                out.violation(i, "recovery returned an entry that is not bit-identical to a written one", json!({"instants_and_ids": bad_payload, "run": describe(inc)}));
+                out.violation(i, "recovery returned an entry that is not (bit for bit) an entry written to that image, or more copies of one than were written", json!({"instants_and_entries": bad_payload, "run": describe(inc)}));
             }
             if run.actor_panicked {
                 out.violation(i, "the WAL actor task panicked", describe(inc));
@@ -1266,7 +1448,7 @@ fn main() {
                         }
                         Item::Trunc(t) => {
                             out.count("truncate:requests-handled");
-                            if per_file.iter().any(|(sq, l)| *sq != newest && l.last().map(|x| x <= t).unwrap_or(false) && l.iter().any(|x| x > t)) {
+                            if per_file.iter().any(|(sq, l)| *sq != newest && l.last().map(|x| stamp_of(*x) <= *t).unwrap_or(false) && l.iter().any(|x| stamp_of(*x) > *t)) {
                                 out.count("truncate:closed-file-with-last-stamp<=T<max-stamp(must-survive)");
                             }
                         }
